@@ -1556,7 +1556,7 @@ func genHeap(prof string) genFunc {
 }
 
 func init() {
-	for _, p := range []string{"C05", "C06", "C08", "C09", "C10", "C11"} {
+	for _, p := range []string{"C06", "C08", "C10", "C11"} {
 		generators[p] = genHeap(p)
 	}
 }
